@@ -213,4 +213,34 @@ def closedBeforeYield (prog : List WStep) : Bool :=
   (List.range (prog.length + 1)).all (fun k => !(runWBranch prog (some k) {}).yieldedOpen) &&
   !(runWBranch prog none {}).yieldedOpen
 
+/-! ### `H2Protocol._reset_abandoned_response` as read off the source
+
+The statements that may run once the guard holds, in source order (`HC.Proto.H2Abandon` holds the interpreter over the
+send-path model, `HC/Props/C05.lean` the theorems).  What matters for "promptly terminated": which of them can make the
+caller - the failed application's completion signal `app_send(None)` - wait, and for what. -/
+
+/-- the conjuncts of the guard -/
+inductive AAtom where
+  | bufferExists        -- `buffer is not None`
+  | bufferNotComplete   -- `not buffer._complete`
+  | isHttpStream        -- `isinstance(self.streams.get(stream_id), HTTPStream)`
+  | other
+deriving Repr, DecidableEq
+
+inductive AStep where
+  | resetStream         -- `try: self.connection.reset_stream(id, INTERNAL_ERROR) except ProtocolError: return`
+  | flush               -- `await self._flush()`: the transport write; needs nothing from the peer's flow control
+  | closeBuffer         -- `await buffer.close()`: sets both events, suspends nowhere (`Atomic`)
+  | forgetBuffer        -- `self.stream_buffers.pop(id, None)`
+  | forgetTree          -- `try: self.priority.remove_stream(id) except MissingStreamError: pass`
+  | drain               -- `await buffer.drain()` (under whatever condition): returns once the send task has emptied the
+                        --   buffer, i.e. once the PEER has granted the credit for everything still in it
+  | awaitOther          -- any other await
+  | unrecognised
+deriving Repr, DecidableEq
+
+/-- no statement of the path waits for anything but the transport -/
+def waitsOnlyForTransport (prog : List AStep) : Bool :=
+  prog.all (fun a => a != .drain && a != .awaitOther && a != .unrecognised)
+
 end HC.Stream.AppExit
